@@ -85,6 +85,22 @@ def substrTypecheck (a b : Expr) : Outcome Unit :=
       | some t' => if t' == .lit .str then .ok () else .lib (.argumentType "substring".toList)
       | none => .ok ()
 
+/-- is some argument a named parameter (`f(x=1)`)? -/
+def hasNamedArg : Exprs → Bool
+  | .nil => false
+  | .cons (.named _ _) _ => true
+  | .cons _ t => hasNamedArg t
+
+/-- the numbers of positional arguments `inspect.signature(djangofunc_<key>).bind(*args)` accepts (django_q.py `visit_Call` binds the arguments against the
+    handler's signature first and reports a mismatch as ArgumentTypeException; Generated.Orm `djangoHandlerArities`, Tie.Orm) -/
+def djArityOk (key : String) (n : Nat) : Bool :=
+  match key with
+  | "now" => n == 0
+  | "concat" => true
+  | "substring" => n == 2 || n == 3
+  | "contains" | "startswith" | "endswith" | "indexof" | "matchespattern" => n == 2
+  | _ => n == 1
+
 /-! ### Django -/
 mutual
 /-- `AstToDjangoQVisitor.visit` below the top level: the tree and the kind of Python object -/
@@ -143,6 +159,8 @@ def djVisit : Expr → Outcome (OTree × OKind)
       let key := String.ofList (pyLower (funcKey f))
       if !(ormHandlers.contains key || djangoGeoHandlers.contains key) then .lib (.unsupportedFunction (funcKey f))
       else if djangoGeoHandlers.contains key then .foreign "unmodelled"
+      else if hasNamedArg args then .foreign "unmodelled"
+      else if !djArityOk key args.length then .lib (.argumentType (funcKey f))
       else djFunc key args
 def djVisitList : Exprs → Outcome (List OTree)
   | .nil => .ok []
